@@ -77,7 +77,7 @@ func genKey(r *sim.R) string {
 	n := 1 + t.Choose(3, "key-len")
 	var parts []string
 	for i := 0; i < n; i++ {
-		if i > 0 && t.Chance(1, 3, "key-idx") {
+		if (i > 0 && t.Chance(1, 3, "key-idx")) || (i == 0 && t.Chance(1, 10, "key-starts-with-index")) {
 			parts = append(parts, strconv.Itoa(t.Choose(3, "key-i")))
 		} else {
 			parts = append(parts, names[t.Choose(len(names), "key-name")])
@@ -564,6 +564,21 @@ func compare(r *sim.R, fv *flag.FlagValue, def, mcfg *ucfg.Config, o optSet, arg
 	}
 	if def != nil && fv.Config() != def {
 		r.Fail("accumulate", "Set", "the flag does not write through to the default config it was given")
+	}
+	// settings whose key starts with an index live in the list part of the root, which a map does not show
+	gn, _ := fv.Config().CountField("")
+	wn, _ := mcfg.CountField("")
+	if gn != wn || fv.Config().IsArray() != mcfg.IsArray() {
+		r.Fail("accumulate", "Set", "after Set(%q): the root holds %d entries (IsArray %v); merging each setting in order gives %d (IsArray %v)", arg, gn, fv.Config().IsArray(), wn, mcfg.IsArray())
+	}
+	if mcfg.IsArray() {
+		var gl, wl []interface{}
+		var e1, e2 error
+		r.MustComplete("Config.Unpack", func() { e1 = fv.Config().Unpack(&gl, o.opts...) })
+		e2 = mcfg.Unpack(&wl, o.opts...)
+		if g, w := model.CanonValue(gl), model.CanonValue(wl); (e1 == nil) != (e2 == nil) || g != w {
+			r.FailD("accumulate", "Set", map[string]string{"got": g, "want": w}, "after Set(%q): the list part of the root unpacks to %s (%v); merging each setting in order gives %s (%v)", arg, g, e1, w, e2)
+		}
 	}
 	// String() is the JSON of the accumulated config when it can be rendered (no NaN, every
 	// reference resolves); in any case it is a read: it changes neither Error() nor what later
